@@ -32,7 +32,9 @@ AXES = {
     # padding factors with and without rounding to a power of two (odd, even, non-integral padded lengths: 8*2.1 -> 17, 8*2.6 -> 21, 8*2.5 = 20)
     "padding": [1, 1.5, 3, 2.1, 2.5, "1.5|RoundPadding=false", "3|RoundPadding=false", "2.1|RoundPadding=false", "2.5|RoundPadding=false", "2.6|RoundPadding=false", "4.1|RoundPadding=false"],
     "RoundPadding": ["false"],
-    "impedance": ["VacuumGap=0", "VacuumGap=-0.03", "VacuumGap=0.03|UseCSR=true", "WallConductivity=1.4e6", "Impedance=@z_long", "Impedance=@z_equal", "Impedance=@z_short", "Impedance=@z_empty"],
+    "impedance": ["VacuumGap=0", "VacuumGap=-0.03", "VacuumGap=0.03|UseCSR=true", "WallConductivity=1.4e6", "Impedance=@z_long", "Impedance=@z_equal", "Impedance=@z_short", "Impedance=@z_empty",
+                  # the table as the only contribution (no pipe at all)
+                  "Impedance=@z_long|VacuumGap=0", "Impedance=@z_equal|VacuumGap=0", "Impedance=@z_short|VacuumGap=0", "Impedance=@z_empty|VacuumGap=0"],
     "InitialDistFile": ["@start_txt", "@start_h5_same", "@start_h5_other", "@start_h5_two", "@start_h5_trunc", "@start_txt_outside",
                         "@start_h5_same|InitialDistStep=0", "@start_h5_same|InitialDistStep=7", "@start_h5_same|InitialDistStep=-9", "@start_h5_same|InitialDistStep=-2"],
     "RenormalizeCharge": [-1, 3],
@@ -173,12 +175,12 @@ def run(res, tier):
     TT = {"inside": "0.5 0.3", "edge": "-6 6", "outside": "100 -100", "short": "1", "text": "a b", "nan": "nan nan", "empty": ""}
     ST = {"inside": "0.5 0.3", "edge": "6 -6", "outside": "1e9 -1e9", "text": "x y", "short": "2", "nan": "nan inf"}
     filecases = []
-    for kind, T, opt, extra in (("impedance", ZT, "Impedance", {}), ("tracking", TT, "tracking", {"FPTrack": 3}), ("start", ST, "InitialDistFile", {})):
+    for kind, T, opt, extra in (("impedance", ZT, "Impedance", {}), ("impedance-alone", ZT, "Impedance", {"VacuumGap": 0}), ("tracking", TT, "tracking", {"FPTrack": 3}), ("start", ST, "InitialDistFile", {})):
         for L in range(0, maxlines + 1):
             for combo in itertools.product(sorted(T), repeat=L):
                 lines = [(T[c] % i) if "%d" in T[c] else T[c] for i, c in enumerate(combo)]
                 for nl in ((True, False) if L else (True,)):
-                    name = "g_%s_%s%s.%s" % (kind, "-".join(combo) or "none", "" if nl else "_nonl", "txt" if kind != "impedance" else "dat")
+                    name = "g_%s_%s%s.%s" % (kind, "-".join(combo) or "none", "" if nl else "_nonl", "txt" if not kind.startswith("impedance") else "dat")
                     p = os.path.join(wd, name)
                     with open(p, "w") as f:
                         f.write("\n".join(lines) + ("\n" if nl and L else ""))
